@@ -274,13 +274,11 @@ def eofRec : Rec := ⟨0x000A, [], []⟩
 def substream (env : Env) (S : List LCell) (lays : List Lay) : Bytes :=
   frame (bofRec :: encodeSheet env S lays ++ [eofRec])
 
-/-! ### the expected range -/
+/-! ### well-formed logical sheets -/
 
-/-- row-major strictly increasing positions inside the BIFF8 grid -/
-def sortedFrom (r c : Int) : List LCell → Prop
-  | [] => True
-  | x :: xs => (r < x.row ∨ (r = x.row ∧ c < x.col)) ∧ sortedFrom x.row x.col xs
+/-- strict row-major order of the logical cells (a sheet is a list sorted this way: positions are distinct) -/
+def cellLt (a b : LCell) : Prop := a.row < b.row ∨ (a.row = b.row ∧ a.col < b.col)
 
-def toCells (S : List LCell) : List Cell := S.map fun c => (c.row, c.col, c.val.toVal)
+instance (a b : LCell) : Decidable (cellLt a b) := by unfold cellLt; infer_instance
 
 end BiffCells
